@@ -158,12 +158,14 @@ class Check:
             })
         cov = {
             "evaluations": len(results),
-            "distinct_nontrivial": len({r.job.jid for r in ok_jobs if not r.covers_unsat}),
+            "distinct_nontrivial": len({r.job.jid for r in ok_jobs
+                                        if not [c for c in r.covers_unsat if c not in r.job.meta.get("impossible_covers", ())]}),
             "rule": self.rule,
             "samples": samples,
             "harnesses_total": len(results),
             "harnesses_successful": len(ok_jobs),
-            "harnesses_successful_every_cover_witness_satisfied": len([r for r in ok_jobs if not r.covers_unsat]),
+            "harnesses_successful_every_possible_cover_witness_satisfied": len([r for r in ok_jobs
+                if not [c for c in r.covers_unsat if c not in r.job.meta.get("impossible_covers", ())]]),
             "queries_total": checks,
             "queries_discharged": discharged,
             "kani_seconds_total": round(sum(r.verif_time for r in results), 1),
